@@ -355,19 +355,20 @@ class FakeDevice:
         self.conns = 0; self.script = []; self.policy = None
 
     async def handle(self, r, w):
-        self.conns += 1; n = self.conns; self.open += 1
+        self.conns += 1; n = self.conns; self.open += 1; half = False
         try:
             while True:
                 d = await r.read(4096)
                 if not d: break
                 self.log.append((n, d))
+                if half: continue               # the sending direction is closed: whatever else arrives is read and not answered
                 if self.script: reply = self.script.pop(0)
                 elif self.policy: reply = self.policy(n, d)
                 else: reply = b"\x01"
                 if reply is None: continue
                 if reply is HALF_CLOSE:
                     if w.can_write_eof(): w.write_eof()
-                    continue
+                    half = True; continue
                 if reply == b"":            # an empty reply = the device closes the stream
                     break
                 w.write(reply); await w.drain()
